@@ -404,6 +404,45 @@ theorem canonImage_eq (conv : Bc3Colour) (fmt : Format) (w h d : Nat) (payload r
     exact ⟨px, h2, h1⟩
 
 
+theorem put_u32le (a b c d : UInt8) : putU32le (u32le a b c d) = [a, b, c, d] := by
+  simp only [putU32le, u32le, List.cons.injEq, and_true]
+  refine ⟨?_, ?_, ?_, ?_⟩ <;> bv_decide
+
+theorem put_u16le (a b : UInt8) : putU16le (u16le a b) = [a, b] := by
+  simp only [putU16le, u16le, List.cons.injEq, and_true]
+  refine ⟨?_, ?_⟩ <;> bv_decide
+
+theorem exists_u32s : ∀ (n : Nat) (bs : Bytes), 4 * n ≤ bs.length →
+    ∃ (vs : List UInt32) (rest : Bytes), vs.length = n ∧ bs = vs.flatMap putU32le ++ rest := by
+  intro n
+  induction n with
+  | zero => intro bs _; exact ⟨[], bs, rfl, rfl⟩
+  | succ n ih =>
+    intro bs h
+    match bs, h with
+    | a :: b :: c :: d :: bs', h =>
+      obtain ⟨vs, rest, hl, e⟩ := ih bs' (by simp at h; omega)
+      refine ⟨u32le a b c d :: vs, rest, by simp [hl], ?_⟩
+      rw [List.flatMap_cons, put_u32le, e]
+      rfl
+
+/-- every byte string of at least 80 bytes is the encoding of some well-formed header followed by
+a payload: the theorems about `encode hd payload` therefore cover every file the code can parse -/
+theorem exists_encode (buffer : Bytes) (h : 80 ≤ buffer.length) :
+    ∃ hd payload, hd.WF ∧ buffer = Spec.Tex.encode hd payload := by
+  match buffer, h with
+  | a0 :: a1 :: a2 :: a3 :: f0 :: f1 :: f2 :: f3 :: w0 :: w1 :: h0 :: h1 :: d0 :: d1 :: m0 :: m1 :: rest, h =>
+    obtain ⟨lods, r1, hl1, e1⟩ := exists_u32s 3 rest (by simp at h; omega)
+    obtain ⟨surf, r2, hl2, e2⟩ := exists_u32s 13 r1 (by
+      have := congrArg List.length e1
+      rw [List.length_append, flatMap_put_length, hl1] at this
+      simp only [List.length_cons] at h
+      omega)
+    refine ⟨⟨u32le a0 a1 a2 a3, u32le f0 f1 f2 f3, u16le w0 w1, u16le h0 h1, u16le d0 d1, u16le m0 m1, lods, surf⟩,
+      r2, ⟨hl1, hl2⟩, ?_⟩
+    simp only [Spec.Tex.encode, Spec.Tex.encodeHeader, put_u32le, put_u16le, e1, e2, List.cons_append,
+      List.nil_append, List.append_assoc]
+
 /-- the observable result of `Texture::from_existing`, in the specification's vocabulary (this is
 what the driver prints for the model and what the harness prints for the real code) -/
 def toDecoded (t : Tex.Texture) : Spec.Tex.Decoded :=
